@@ -435,10 +435,11 @@ let eval (x : sx) : sx =
         | _ -> failwith "lazy op" in
       L (A "ok" :: go None ops [])
   | L (A "lazy" :: force :: calls) ->
-      (* wrapped function: a -> a * a + 1 *)
-      let f (a : z) : z = z_of_int (int_of_z a * int_of_z a + 1) in
+      (* wrapped function: a -> a * a + 1; it raises (ValueError) for the argument 99 *)
+      let f (a : z) : z option = if int_of_z a = 99 then None else Some (z_of_int (int_of_z a * int_of_z a + 1)) in
       let eqb (a : z) (b : z) = int_of_z a = int_of_z b in
-      L (A "ok" :: List.map (fun (v, ran) -> L [sz v; sb ran]) (lazy_run eqb f (bi force) None (zlist calls)))
+      L (A "ok" :: List.map (fun (v, ran) -> match v with Some v -> L [sz v; sb ran] | None -> L [A "raised"; A "ValueError"])
+                     (lazy_run_x eqb f (bi force) None (zlist calls)))
   | L (A "scale" :: a :: b :: c :: d :: sh :: vs) ->
       L (A "ok" :: List.map (fun v -> sf (scale fnum (fl v) (fl a) (fl b) (fl c) (fl d) (fl sh))) vs)
   | L [A "cmp"; d; r] ->
